@@ -4,6 +4,7 @@ mod crash_eng;
 mod hist_eng;
 mod maint_eng;
 mod search_eng;
+mod ser_eng;
 mod storage_eng;
 mod term_eng;
 
@@ -34,6 +35,8 @@ fn run_engine(engine: &str, args: &Args) -> Report {
         "hist_c18" => drive(&hist_eng::Hist { prop: "C18" }, args),
         "c13" => drive(&hist_eng::C13, args),
         "c19" => drive(&term_eng::C19, args),
+        "c20" => drive(&ser_eng::C20, args),
+        "c21" => drive(&ser_eng::C21, args),
         "c05" => drive(&maint_eng::C05, args),
         "c06" => drive(&maint_eng::C06, args),
         "c12" => drive(&maint_eng::C12, args),
